@@ -4,11 +4,12 @@ Judges the lines of harness group `c09`:
     mesh.outcome k POLY [max_area max_ar] => build-err | err | panic | fuel | ok <slots> <n_valid>      (k=0 from_polygon, k=1 mesh_polygon)
 and the harness comments
     # panic-kind family=... [message] (next line)     -> remembered, quoted in the verdict of the next line
-    # timeout <lhs> / # abort <lhs>                   -> the case was killed by the watchdog / died from a signal: failure
+    # abort <lhs>                                     -> the case died from a signal (abort / stack overflow): failure
+    # timeout <lhs>                                   -> killed by the wall-clock watchdog: not judged (see comment())
 
 Verdicts
   * panic                 -> fail `panic:<slug of the message>`
-  * fuel, # timeout       -> fail `runaway`;   # abort -> fail `abort`
+  * fuel (the model's 10000 refinement passes exhausted) -> fail `runaway`;   # abort -> fail `abort`
   * k=0 on a well-conditioned polygon (all edges >= 0.05, all angles >= 2 degrees, clearance between loops >= 0.05, at most
     40 vertices in total, every bridge unobstructed): must be `ok` with slots == n_valid and 1 <= n_valid <= V + sum(h_i + 2) - 2
     (ear clipping of the merged outline; the crate drops vertices that become collinear, which only lowers the count)
@@ -161,7 +162,11 @@ def comment(text):
         i = text.find('['); j = text.rfind(']')
         _last_panic = text[i + 1:j] if 0 <= i < j else text
         return None
-    for tag, key in (('# timeout ', 'runaway'), ('# abort ', 'abort')):
+    # A watchdog timeout is NOT judged: the harness kills a case after G3D_LIMIT_MS (1.5 s by default) of wall time, and a
+    # legitimate refinement down to the 1e-3 area floor of a 100 m2 polygon takes longer than that (measured: 2 s for
+    # max_aspect_ratio 0.86, ending in Err), the more so with 16 shards in parallel: wall time cannot tell "slow" from
+    # "runaway" soundly.  Only a child that died from a signal (abort / stack overflow) is a failure.
+    for tag, key in (('# abort ', 'abort'),):
         if text.startswith(tag):
             t = text[len(tag):].split(' ')
             if t[0] != 'mesh.outcome': return None
